@@ -319,6 +319,46 @@ def has_effect_call(t):
     return False
 
 
+def _reads_mutable(t):
+    """does the term read a `let mut` variable (named m<k> by the translator)? such a value must not be inlined past later assignments"""
+    if isinstance(t, tuple):
+        if len(t) == 2 and t[0] == "var" and isinstance(t[1], str) and re.match(r"^m\d+$", t[1]):
+            return True
+        return any(_reads_mutable(x) for x in t)
+    return False
+
+
+def _var_ids(e):
+    out = set()
+
+    def f(x):
+        if x.get("k") in ("var", "upvar"):
+            out.add(x["id"])
+    walk(e, f)
+    return out
+
+
+def _root_var(e):
+    while isinstance(e, dict) and e.get("k") in ("field", "deref", "index", "borrow"):
+        e = e["e"]
+    if isinstance(e, dict) and e.get("k") in ("var", "upvar"):
+        return e["id"]
+    return None
+
+
+def _mutated_in(nodes, ids):
+    hit = []
+
+    def f(x):
+        k = x.get("k")
+        if k in ("assign", "assignop") and _root_var(x["l"]) in ids:
+            hit.append(1)
+        if k == "borrow" and "Mut" in x.get("bk", "") and _root_var(x["e"]) in ids:
+            hit.append(1)
+    walk(nodes, f)
+    return bool(hit)
+
+
 def block_term(b, ctx):
     stmts = []
     for s in b["stmts"]:
@@ -328,7 +368,12 @@ def block_term(b, ctx):
             if p.get("k") == "bind" and not p.get("sub") and init is not None and s.get("else") in (None,):
                 mutable = "Mut" in p.get("mode", "").split(",")[-1] if False else p.get("mode", "").endswith("Mut)")
                 t = term(init, ctx)
-                if mutable or not ctx.inline_pure:
+                reads_mut = False
+                if _reads_mutable(t):
+                    ids = _var_ids(init)
+                    rest = b["stmts"][b["stmts"].index(s) + 1:] + ([b["tail"]] if b.get("tail") else [])
+                    reads_mut = _mutated_in(rest, ids)
+                if mutable or not ctx.inline_pure or reads_mut:
                     name = ctx.fresh("m" if mutable else "v")
                     ctx.env[p["id"]] = ("var", name)
                     stmts.append(("let", name, t))
